@@ -7,6 +7,7 @@ invariant `CPageOk` (8 words, each `< 2^64`, `length == Σ count_ones`).
 Property theorems only; the proofs live in Lemmas/IntSetPageConc.lean.
 -/
 import FontVerif.Lemmas.IntSetPageConc
+import FontVerif.Lemmas.IntSetPageIterConc
 set_option linter.unusedVariables false
 set_option exponentiation.threshold 600
 namespace FontVerif.C14PageConc
@@ -179,5 +180,75 @@ example : CPageOk (CPage.zero.insertRange 60 130) := CPage.insertRange_ok _ _ _ 
 example : (CPage.zero.insertRange 60 130).clear = CPage.zero := by decide
 /-- the `u64` operators satisfy `ElemOp` (hypothesis of `page_process_refines`) -/
 example : ElemOp elemSubtract (fun a b => a && !b) := elemOp_subtract
+
+/-! ## the element iterator `Iter { val, forward_index, backward_index }` and `BitPage::iter` -/
+
+/-- `<Iter as Iterator>::next` (mask below `forward_index`, `trailing_zeros`): for every state with
+`0 ≤ forward_index`, `backward_index ≤ 63` it yields the LOWEST set bit `x` of `val` with
+`forward_index ≤ x ≤ backward_index` and moves `forward_index` to `x + 1`; it returns `None`, leaving
+the state unchanged, exactly when there is no such bit. -/
+theorem elem_iter_next (it : EIter) (h : it.Ok) :
+    it.next = match it.window with
+      | [] => (none, it)
+      | x :: _ => (some x, { it with fwd := (x : Int) + 1 }) :=
+  EIter.next_eq it h
+
+/-- `<Iter as DoubleEndedIterator>::next_back` (`checked_shl` mask, `leading_zeros`): yields the HIGHEST
+un-yielded set bit `x` and moves `backward_index` to `x - 1` (possibly `-1`); `None` iff none is left. -/
+theorem elem_iter_next_back (it : EIter) (h : it.Ok) :
+    it.nextBack = match it.window.getLast? with
+      | none => (none, it)
+      | some x => (some x, { it with bwd := (x : Int) - 1 }) :=
+  EIter.nextBack_eq it h
+
+/-- the window (`EIter.window`) is what its name says: the set bits between the two indices, ascending -/
+theorem elem_iter_window (it : EIter) (i : Nat) :
+    (i ∈ it.window ↔ i < 64 ∧ it.fwd ≤ (i : Int) ∧ (i : Int) ≤ it.bwd ∧ Nat.testBit it.val i = true) ∧
+      it.window.Pairwise (· < ·) :=
+  ⟨EIter.mem_window, EIter.window_sorted it⟩
+
+/-- `Iter::new(elem)` / `Iter::from(elem, k)` run forwards to exhaustion yield exactly the set bits
+(`≥ k`) ascending; run backwards, the same bits descending. -/
+theorem elem_iter_collect (e k : Nat) (he : e < 2 ^ 64) :
+    (EIter.new e).toList = (List.range 64).filter (fun i => e.testBit i) ∧
+    (EIter.new e).toListRev = ((List.range 64).filter (fun i => e.testBit i)).reverse ∧
+    (EIter.from e k).toList = (List.range 64).filter (fun i => decide (k ≤ i) && e.testBit i) ∧
+    (EIter.from e k).toListRev =
+      ((List.range 64).filter (fun i => decide (k ≤ i) && e.testBit i)).reverse := by
+  refine ⟨?_, ?_, ?_, ?_⟩
+  · rw [EIter.toList_eq _ (EIter.new_ok e he), EIter.window_new]
+  · rw [EIter.toListRev_eq _ (EIter.new_ok e he), EIter.window_new]
+  · rw [EIter.toList_eq _ (EIter.from_ok e k he), EIter.window_from]
+  · rw [EIter.toListRev_eq _ (EIter.from_ok e k he), EIter.window_from]
+
+/-- EVERY interleaving of `next` (`true`) and `next_back` (`false`) on an element iterator: the values
+yielded at the front (call order) ++ the bits still in the window of the final state ++ the values
+yielded at the back (reverse call order) = the initial window.  So every set bit is produced exactly
+once, the front results ascend, the back results descend, and the two ends meet without overlap. -/
+theorem elem_iter_any_schedule (it : EIter) (h : it.Ok) (s : List Bool) :
+    (it.runSched s).1 ++ (it.runSched s).2.2.window ++ (it.runSched s).2.1.reverse = it.window ∧
+      (it.runSched s).2.2.Ok :=
+  EIter.runSched_spec s it h
+
+/-- `BitPage::iter()` (`enumerate`, `filter(elem != 0)`, `flat_map(Iter::new(elem).map(base + idx))`)
+collected forwards is `pageMembers` of the abstraction — exactly the set bits below 512, ascending —
+and collected backwards (`.rev()`) the same list reversed; hence `first`/`last` are its head/last. -/
+theorem page_iter_refines (p : CPage) (h : CPageOk p) :
+    p.iterM = pageMembers p.abs.bits ∧ p.iterRevM = (pageMembers p.abs.bits).reverse ∧
+      p.iterM = (List.range 512).filter (fun i => p.abs.bits.testBit i) ∧
+      p.iterM.length = p.length ∧
+      p.iterRevM.head? = p.iterM.getLast? := by
+  have h1 := CPage.iterM_eq p h
+  have h2 := CPage.iterRevM_eq p h
+  refine ⟨h1, h2, by rw [h1, pageMembers_eq], ?_, by rw [h1, h2, List.head?_reverse]⟩
+  rw [h1]; exact (CPage.abs_ok p h).2.symm
+
+example : (EIter.new 0b1111110).runSched [true, false, false, true, true, false, true, true, false] =
+    ([1, 2, 3], [6, 5, 4], ⟨0b1111110, 4, 3⟩) := by decide
+example : (EIter.new (2 ^ 63 + 1)).toListRev = [63, 0] := by decide
+example : (EIter.new 1).nextBack = (some 0, ⟨1, 0, -1⟩) := by decide
+example : (CPage.zero.insertRange 60 70).iterM = [60, 61, 62, 63, 64, 65, 66, 67, 68, 69, 70] := by decide
+example : (CPage.zero.insertRange 60 70).iterAfterM 63 = [64, 65, 66, 67, 68, 69, 70] := by decide
+example : (EIter.new 5).Ok := EIter.new_ok 5 (by decide)
 
 end FontVerif.C14PageConc
